@@ -33,7 +33,7 @@ from tornado.ioloop import IOLoop
 
 from sim.env import SimEnv, UNIT
 from sim.tape import jsonable
-from sim.threads import Baton, BatonLoop, line_tracer, run_forked, DONE, BLOCKED
+from sim.threads import Baton, BatonLoop, line_tracer, ForkRunner, DONE, BLOCKED
 
 import os as _os
 ENABLED = _os.environ.get("VERIF_C38_THREADS", "0") == "1"  # default on once proved
@@ -131,7 +131,9 @@ class _Boom(Exception):
     pass
 
 
-def _child(scn, full_log, result):
+def _child(request, result):
+    scn = request["scn"]
+    full_log = request["full_log"]
     viol = []
     probes = {}
     done = [False]
@@ -217,6 +219,10 @@ def _child(scn, full_log, result):
         nforeign = sum(1 for v in cbs.values() if v[0])
         nontrivial = bool(nforeign >= 1 and sched.preempts >= 1
                           and probes.get("foreign_post_while_loop_asleep", 0) >= 1)
+        clean = fatal is None and all(t.state == DONE for t in sched.threads[1:])
+        if clean:
+            loop.sched = None
+            loop.block_hook = None
         result.send({
             "violations": viol, "nontrivial": nontrivial, "stats": jsonable(st),
             "log_head": jsonable(log.head[:120]),
@@ -224,7 +230,7 @@ def _child(scn, full_log, result):
             "outcome": jsonable({"status": state["status"], "scheduled": len(cbs),
                                  "ran": sum(len(v) for v in runs.values()),
                                  "threads": sched.describe()}),
-        })
+        }, clean=clean)
 
     sched = Baton(env.tapes.draw, log, max_steps=60000 if line else 12000, fair_cap=8000,
                   on_fatal=lambda kind, detail: finish((kind, detail)))
@@ -339,6 +345,7 @@ def _child(scn, full_log, result):
 
 
 _frozen = []
+_runner = ForkRunner(_child, wall=WALL)
 
 
 def run(scn, full_log=False):
@@ -347,7 +354,7 @@ def run(scn, full_log=False):
         gc.collect()
         gc.freeze()
         _frozen.append(1)
-    return run_forked(lambda result: _child(scn, full_log, result), wall=WALL)
+    return _runner.run({"scn": scn, "full_log": bool(full_log)})
 
 
 # names used in the lead's brief
